@@ -5,6 +5,7 @@ import copy
 import json
 import os
 import random
+import struct
 
 import clirun
 import vlib
@@ -21,8 +22,13 @@ def gen_export(r, dense_assign=False):
     parts = {}
     tracks = []
     pids = r.sample(range(1, 30), nparts)
+    single = r.random() < 0.3        # exactly one track in an event with several parts (automatic track selection)
+    if single:
+        nparts = r.randint(2, 3)
+        pids = r.sample(range(1, 30), nparts)
+    owner = r.choice(pids)
     for pid in pids:
-        nt = r.choice([0, 1, 1, 2])
+        nt = r.choice([0, 1, 1, 2]) if not single else (1 if pid == owner else 0)
         ts = {}
         for _ in range(nt):
             t = r.choice([x for x in range(1, 25) if x not in [a for a, _ in tracks]])
@@ -49,7 +55,12 @@ def gen_export(r, dense_assign=False):
         mn = r.choice([None, 0, 0, 1, 2])
         if mx is not None and mn is not None and mn > mx and r.random() < 0.97:
             mn = mx
-        c = {"nr": nr, "shortname": "Kürs%d" % cid, "segments": seg, "fields": {}}
+        fields = {}
+        if r.random() < 0.5:
+            fields["rf"] = r.choice([0.0, 0.5, 1.25, 1.5, 2, 2.5, 1.1, "big", None, True])
+        if r.random() < 0.5:
+            fields["ro"] = r.choice([0, 1, 2.5, 3, 12, -1.5, "x", None])
+        c = {"nr": nr, "shortname": "Kürs%d" % cid, "segments": seg, "fields": fields}
         if r.random() < 0.9:
             c["min_size"] = mn
         if r.random() < 0.9:
@@ -99,7 +110,7 @@ def coq(v):
     if isinstance(v, int):
         return "(JInt (%d)%%Z)" % v
     if isinstance(v, float):
-        return "JFloat"
+        return "(JNum %d%%Z)" % struct.unpack("<I", struct.pack("<f", v))[0]
     if isinstance(v, str):
         return "(JStr %s)" % cstr(v)
     if isinstance(v, list):
@@ -113,15 +124,19 @@ def g_expected(d):
     if d is None or "err" in d:
         return "None"
     ps = "; ".join("((%d)%%Z, %s, [%s])" % (p["dbid"], cstr(p["name"]), "; ".join("(%d%%nat,%d%%nat)" % (c[0], c[1]) for c in p["choices"])) for p in d["participants"])
-    cs = "; ".join("((%d)%%Z, %s, (%d)%%Z, (%d)%%Z, [%s], %s, [%s], %d%%nat)" % (
+    cs = "; ".join("((%d)%%Z, %s, (%d)%%Z, (%d)%%Z, [%s], %s, [%s], %d%%Z, %d%%Z)" % (
         c["dbid"], cstr(c["name"]), c["min"], c["max"], "; ".join("%d%%nat" % i for i in c["instr"]), "true" if c["fixed"] else "false",
-        "; ".join(cstr(h) for h in c["hidden"]), int(round(c["offset"]))) for c in d["courses"])
+        "; ".join(cstr(h) for h in c["hidden"]), c["fbits"], c["obits"]) for c in d["courses"])
     q = "None" if d["quality"] is None else "(Some (%d%%nat, [%s]))" % (d["quality"][0], "; ".join("%d%%nat" % x for x in d["quality"][1]))
     return "(Some ([%s], [%s], %s, (%d)%%Z, (%d)%%Z, %d%%nat))" % (ps, cs, q, d["event_id"], d["track_id"], d["ign_regs"] or 0)
 
 
 def g_opts(track, ic, ia):
     return "%s, %s, %s" % ("None" if track is None else "(Some (%d)%%Z)" % track, "true" if ic else "false", "true" if ia else "false")
+
+
+def g_field(f):
+    return "None" if f is None else "(Some %s)" % cstr(f)
 
 
 def eval_cases(ctx, name, ctype, check, texts, shards=16, header="Require Import Json Cde CorrCde.\nOpen Scope string_scope.\nOpen Scope list_scope."):
@@ -177,7 +192,8 @@ def read_cases(ctx, seed, count):
     lst = []
     for ex in exports:
         for (track, ic, ia) in option_sets(r, ex):
-            lst.append({"file": ex["file"], "track": track, "ic": ic, "ia": ia, "id": ex["id"]})
+            ff, of = r.choice([(None, None), (None, None), ("rf", "ro"), ("rf", None), (None, "ro"), ("nosuch", "ro")])
+            lst.append({"file": ex["file"], "track": track, "ic": ic, "ia": ia, "id": ex["id"], "ff": ff, "of": of})
     d = os.path.join(ctx.work, "cde")
     lp = os.path.join(d, "readlist.json")
     json.dump(lst, open(lp, "w"))
@@ -186,12 +202,12 @@ def read_cases(ctx, seed, count):
     texts = []
     for q, im in zip(lst, impl):
         ex = exports[q["id"]]
-        texts.append("(%s, %s, %s)" % (coq(ex["export"]), g_opts(q["track"], q["ic"], q["ia"]), g_expected(im)))
+        texts.append("(%s, %s, %s, %s, %s)" % (coq(ex["export"]), g_opts(q["track"], q["ic"], q["ia"]), g_field(q["ff"]), g_field(q["of"]), g_expected(im)))
     codes = eval_cases(ctx, "read", "read_case", "check_read", texts)
     recs = []
     for q, im, c in zip(lst, impl, codes):
         recs.append({"export_file": q["file"], "export": exports[q["id"]]["export"], "track": q["track"], "ignore_cancelled": q["ic"],
-                     "ignore_assigned": q["ia"], "impl": im if ("err" in im or "panic" in im) else {"participants": len(im["participants"]), "courses": len(im["courses"]), "quality": im["quality"]},
+                     "ignore_assigned": q["ia"], "room_factor_field": q["ff"], "room_offset_field": q["of"], "impl": im if ("err" in im or "panic" in im) else {"participants": len(im["participants"]), "courses": len(im["courses"]), "quality": im["quality"]},
                      "impl_full": im, "code": c})
     return recs
 
@@ -242,6 +258,8 @@ def e2e_cases(ctx, seed, count, binpath, opts_fn=None, dense_assign=True, thread
             if os.path.exists(outp):
                 os.remove(outp)
             args = ["--cde", "--num-threads", str(threads)] + (["--track", str(track)] if track is not None else []) + (["-i"] if ic else []) + (["-j"] if ia else [])
+            if r.random() < 0.35:
+                args += r.choice([["--room-factor-field", "rf", "--room-offset-field", "ro"], ["--room-factor-field", "rf"], ["--room-offset-field", "ro"]])
             tasks.append((ex, track, ic, ia, args + [ex["file"], outp], outp))
     from concurrent.futures import ThreadPoolExecutor
 
